@@ -264,7 +264,9 @@ def run(R, env):
             lterm = c.T.call_term(lt, lbi)
             pushes = [(bi, a) for bi, t, a in call_sites(c, lambda nm: nm == "std::vec::Vec::push")]
             okl = True
-            okk = len(pushes) == 1 and norm(pushes[0][1][1]) == norm(("payload", lterm, "Ok/Some"))
+            want_b = norm(("payload", lterm, "Ok/Some"))
+            # the pushed value is the loaded batch, or its response built from it
+            okk = len(pushes) == 1 and any(norm(s_) == want_b for s_ in subterms(pushes[0][1][1]))
             if okk:
                 # the push happens exactly when the load succeeded
                 wok = c.assume_ok(lambda s_: norm(s_) == norm(lterm), True).settle()
